@@ -17,6 +17,10 @@ def files(dotted_reserved=False):
     G.add_method(svc, "Implicit", ".acme.lab.v1.Req", ".acme.lab.v1.Resp", http=("get", "/v1/{parent=projects/*}/{name=items/*}/{type}"))
     G.add_method(svc, "Nested", ".acme.lab.v1.Req", ".acme.lab.v1.Resp", http=("get", "/v1/{spec.region=regions/*}/things"))
     G.add_method(svc, "NoRule", ".acme.lab.v1.Req", ".acme.lab.v1.Resp")
+    # an annotation without parameters: "send no routing header" (it also switches the implicit header of the http rule off)
+    em = G.add_method(svc, "EmptyRule", ".acme.lab.v1.Req", ".acme.lab.v1.Resp", http=("get", "/v1/{name=empties/*}"))
+    from google.api import routing_pb2
+    em.options.Extensions[routing_pb2.routing].SetInParent()
     from google.api import annotations_pb2
     cm = G.add_method(svc, "Custom", ".acme.lab.v1.Req", ".acme.lab.v1.Resp")
     cm.options.Extensions[annotations_pb2.http].custom.kind = "HEAD"
@@ -90,7 +94,10 @@ def scenarios():
                 compile(f.content, f.name, "exec")
             except SyntaxError as e:
                 failures.append({"case": "http path variable {spec.class=...}: nested segment named by a reserved word", "error": str(e), "known": "F7-dotted-reserved"})
-    api, res = G.generate(files(), "autogen-snippets=false")
+    try:
+        api, res = G.generate(files(), "autogen-snippets=false")
+    except Exception as e:      # noqa
+        return {"cases": 1, "failures": [{"case": "generation of the routing corpus failed", "error": repr(e)[:300]}]}
     with G.materialised(res):
         from acme import lab_v1
         from acme.lab_v1.services.lab.transports import LabGrpcTransport, LabGrpcAsyncIOTransport
@@ -126,6 +133,7 @@ def scenarios():
                ("implicit", {}, {"parent": "", "name": "", "type": ""}),
                ("nested", {"spec": {"region": "regions/eu"}}, {"spec.region": "regions/eu"}),
                ("no_rule", {"name": "x"}, None),
+               ("empty_rule", {"name": "empties/1"}, None),
                ("custom", {"parent": "projects/p", "name": "items/7"}, {"parent": "projects/p", "name": "items/7"}),
                ("patchy", {"parent": "projects/p", "name": "items/7"}, {"name": "items/7"})]
         for meth, req, want in imp:
